@@ -103,6 +103,10 @@ def run_case(case):
             spec2["options"]["target"] = r["f"] if math.isfinite(r["f"]) \
                 else 0.0
             spec2["callback"] = {"conv": "pos", "stop_at": k}
+        if rng.random() < 0.3:
+            # the evaluation budget ends exactly at the triggering evaluation
+            spec2["options"]["maxfev"] = k
+            tags.append("maxfev_at_trigger")
         rec = mrun.run(spec2)
         for key, val in e2e.base_counts(rec).items():
             counts[key] = counts.get(key, 0) + val
